@@ -2,6 +2,7 @@
    HMS machine, any configuration, any length. *)
 From Coq Require Import List Bool Arith ZArith.
 From HV Require Import Ord Sprout Tree TreeLemmas TreeInv TreeRun.
+From HV Require Import DriverPrim Driver DriverFacts GenDriver GenEquivDriver DriverCode.
 Import ListNotations.
 
 (* the run ends only through a TRUE consult at a metaepoch boundary, and nothing happens afterwards *)
@@ -66,3 +67,25 @@ Definition wd_events : list event :=
 Example C05_wind_down_example : exists s, run wd_cfg (init 10) wd_events = Some s /\ pc s = PDone /\ map d_after (demes s) = [1; 1; 0] /\
   map d_active (demes s) = [false; false; false] /\ mcount s = 2 /\ length (demes s) = 3.
 Proof. vm_compute. eexists. split; [reflexivity|]. repeat split. Qed.
+
+(* ---------------------------------------------------------------- the same for the TRANSLATED code.
+   Gen/GenDriver.v is regenerated from /repo's current pyhms/tree.py (run, run_step, run_metaepoch, run_sprout, _do_sprout, active_demes,
+   active_non_leaves) and the run_metaepoch methods of EADeme, DEDeme, SHADEDeme, CMADeme, LocalDeme, LHSDeme, SobolDeme on every check;
+   `code_moment c fuel n evs s`: s is a state the translated run() passes through on the event stream evs. *)
+Theorem C05_translated_run_is_an_accepted_run c fuel s evs s' rest :
+  gens_ok c -> pc s = PMain -> exec (gen_tree_run c fuel) s evs = Some (tt, s', rest) ->
+  exists used s'', evs = used ++ rest /\ run c s used = Some s'' /\ pc s'' = PDone /\ set_pc s'' PMain = set_pc s' PMain.
+Proof. exact (code_run_refines c fuel s evs s' rest). Qed.
+Print Assumptions C05_translated_run_is_an_accepted_run.
+Theorem C05_translated_run_end c fuel n evs s' rest :
+  gens_ok c -> 1 <= height c -> exec (gen_tree_run c fuel) (init n) evs = Some (tt, s', rest) ->
+  seen s' = true /\ steps s' = mcount s' /\ born_after_seen s' = 0 /\ (forall i, i < length (demes s') -> d_after (dnth i (demes s')) <= 1).
+Proof. exact (code_run_end c fuel n evs s' rest). Qed.
+Print Assumptions C05_translated_run_end.
+Theorem C05_translated_wind_down_always c fuel n evs s : 1 <= height c -> code_moment c fuel n evs s -> WD s.
+Proof. exact (code_moment_wind_down c fuel n evs s). Qed.
+Print Assumptions C05_translated_wind_down_always.
+(* the translated run() really runs: the wind-down example above, executed by the code-derived program *)
+Example C05_translated_example : exists s, exec (gen_tree_run wd_cfg 10) (init 10) wd_events = Some (tt, s, []) /\ map d_after (demes s) = [1; 1; 0] /\
+  map d_active (demes s) = [false; false; false] /\ mcount s = 2 /\ length (demes s) = 3 /\ gens_ok wd_cfg.
+Proof. vm_compute. eexists. split; [reflexivity|]. repeat split. intros lv. unfold gens_of, wd_cfg. cbn. destruct lv as [|[|[|lv]]]; cbn; auto. Qed.
